@@ -1,5 +1,6 @@
 import Passage.Driver.Common
 import Passage.Grpc
+import Passage.NetText
 namespace Passage.Driver.C19
 open Passage Passage.Driver Passage.Grpc
 
@@ -42,9 +43,14 @@ def ipOracle (toks : List String) : Bytes → Option Bytes := fun h =>
   let hit : Option (Option Bytes) := (kvs toks "ip").findSome? fun e => match e.splitOn ":" with
     | [a, b] => if hex? a == some h then (if b == "-" then some (none : Option Bytes) else (hex? b).map some) else none
     | _ => none
-  match hit with
-  | some r => r
-  | none => none
+  -- an IPv4 text is decided by the model's own parser and printed by its own printer (NetText); the recorded
+  -- verdict of std::net is used for everything else (IPv6 text)
+  match NetText.parseV4 h with
+  | some x => some (NetText.showV4 x)
+  | none =>
+    match hit with
+    | some r => r
+    | none => none
 
 def handle : List String → Option String
   | "c19.disc" :: rest => do
@@ -72,6 +78,11 @@ def handle : List String → Option String
         | none => "err"
         | some t => "ok " ++ targetStr t
     some s!"req {Hex.encode r.clientHost}:{r.clientPort} {Hex.encode r.serverHost}:{r.serverPort} {r.protocol} {Hex.encode r.username} {Hex.encode r.userId} [{" ".intercalate (r.targets.map wireStr)}] => {res}"
+  | "c19.v4" :: rest => do
+    let t ← hex? (← (kvs rest "t").head?)
+    match NetText.parseV4 t with
+    | none => some "v4 -"
+    | some x => some s!"v4 {x.a.val}.{x.b.val}.{x.c.val}.{x.d.val} {Hex.encode (NetText.showV4 x)}"
   | _ => none
 
 end Passage.Driver.C19
